@@ -216,6 +216,8 @@ func c11(c *Ctx) {
 }
 
 func c11Loopback(c *Ctx) {
+	c09Stalls.start() // host-stall monitor (see c09.go)
+	defer close(c09Stalls.stop)
 	T := 200 * time.Millisecond
 	workers := 8
 	N := c.N(12, 80)
@@ -338,6 +340,7 @@ func c11Loopback(c *Ctx) {
 					c.Res.Count("loopback:discoveries-queued-behind-another-call-on-a-fixed-port", 1)
 				}
 				start := time.Now()
+				t0mono := farm.Mono()
 				list, err := u.GetDevices()
 				elapsed := time.Since(start)
 				holder.Wait()
@@ -367,7 +370,12 @@ func c11Loopback(c *Ctx) {
 				var port uint16
 				fmt.Sscan(portStr, &port)
 				if msg, class := c11Compare(list, replies, port, names); msg != "" {
-					c.Res.Violate("C11:loopback:"+class, "GetDevices: "+msg, wv, caseNo)
+					if st := c09Stalls.during(t0mono, farm.Mono()); st > 25*time.Millisecond && strings.Contains(msg, "missing") {
+						// a reply that was in the socket buffer when the collection window closed on a stalled host: not judged
+						c.Res.Inconcl(fmt.Sprintf("a reply is missing but the host stalled the process for %v during the discovery", st))
+					} else {
+						c.Res.Violate("C11:loopback:"+class, "GetDevices: "+msg, wv, caseNo)
+					}
 				}
 				if elapsed < T*93/100 || elapsed > T+1500*time.Millisecond+map[bool]time.Duration{true: T * time.Duration(2*workers+1), false: 0}[queued] { // the bind port guard is process wide: the queued cases of all workers wait for each other
 					c.Res.Violate("C11:loopback:duration", fmt.Sprintf("GetDevices collected replies for %v, the timeout is %v", elapsed, T), wv, caseNo)
